@@ -1,8 +1,29 @@
 /-
   Scc.Props.C06X86Full — property C06 (x86-64 code generation preserves AxCut semantics): THEOREM A ∘
-  THEOREM B on the TEXT of the emitted routine, with the side hypotheses of `C06_data_programs`
-  (Props/C06X86Heap.lean) DISCHARGED.
+  THEOREM B on the TEXT of the emitted routine for ALL programs — data types AND CLOSURES —, with the side
+  hypotheses of `C06_data_programs` (Props/C06X86Heap.lean) DISCHARGED.
 
+  (A) CLOSURES.  The three-way simulation (AxCut positional machine ⟷ abstract backend machine ⟷ x86-64
+  machine) is extended to `create` and `invoke`:
+    * `C06_create_x86` (`Ref.K.create_x3`), `C06_invoke_x86` (`Ref.K.invoke_x3`);
+    * `C06_step_x86_all` (`Ref.K.step3`): the three-way step for all eleven statement forms;
+    * `C06_programs` (`Ref.K.programs_items`): the run theorem on the items of the routine, no `DataProg`.
+  The word part of a closure is a CODE ADDRESS: the address of the method table in the mock code on the
+  abstract machine, the BYTE ADDRESS of the method table in the loaded routine on x86-64 (`addrAt`,
+  `LoadedA`).  The two generators draw different label numbers, so the two addresses are related PER
+  INSTANCE of a closure (Scc/X86/RefClosDefs.lean): `κ id j` is the machine word of the closure in field `j`
+  of object `id`, the machine state holds the word of a closure in a variable, and the closure invariant
+  `XC` says of every closure inside every value of the environment that the mock methods stand at its
+  abstract word and the x86-64 methods at its machine word, generated FOR THE SAME environment context.
+  `invoke` of a single-method closure is `jmp reg` to the byte address of a label: the machine lands on the
+  first item of non-zero size behind it; the relation is kept at the statement boundary (`Tol`,
+  Scc/X86/RefClosTol.lean).
+  The closure-aware proofs live in Scc/X86/RefClosH*.lean + RefClos*.lean, namespace `Scc.X86.Ref.K`: a FORK
+  of Scc/X86/RefHeap*.lean (relation `X3` with the extra argument `κ`, frame exports `KeepPos`,
+  `SubstProv`, `LetProv`, `LoadProv`); the originals are unchanged because Scc/X86/Conc*.lean (C09/C10/C13)
+  is built on them.
+
+  (B) SIDE HYPOTHESES.
   `C06_x86Checks : AxCut.Prog → Bool` collects what is genuinely per-program:
     * `capCheck`    every context has at most 133 variables (static bound `2·progCap p ≤ 266`, the capacity
                     of utils.rs temporary_from_position for both temporaries of every variable);
@@ -15,18 +36,23 @@
     * the mock code generator succeeds (`mock_compile_ok`: the mock backend is a `TotalBackend`);
     * its code fits the address space (`codeFits_of_size`);
     * every context of every reachable state has at most 133 variables (`cap266_of_check`);
-    * `fitsI64 (5·tag)` (from the bound on xtors), `fuel + 1 < 2^64` (from the heap bound and `MachOK`);
+    * `fitsI64 (5·tag)`, `fitsI32 (5·tag)` (from the bound on xtors), `fuel + 1 < 2^64` (from the heap bound
+      and `MachOK`);
     * the labels of the emitted routine are pairwise distinct (`labels_unique_x86`, Scc/X86/RefSideLabels.lean:
       the x86-64 analogue of `C14Generic.labels_unique`, memory methods included);
     * the text loads (`C14_routine_loads`).
+  RESULT: `C06_programs_text`, and in the shape of `C06_statement` (Props/C06X86.lean):
+  `C06_statement_checked` / `C06_statement_checked_holds`; the clauses that differ from `C06_statement` are
+  listed before `C06_statement_checked`.
 -/
 import Scc.X86.RefSide
 import Scc.X86.RefSideLabels
 import Scc.Props.C06X86Heap
+import Scc.X86.RefClosHRun
 import Scc.Props.C14Loader
 
 namespace Scc.X86
-open Scc.AxCut Scc.AxCut.Pos Scc.Backend Scc.Backend.Abs Scc.Backend.Sim Scc.X86.Ref
+open Scc.AxCut Scc.AxCut.Pos Scc.Backend Scc.Backend.Abs Scc.Backend.Sim Scc.X86.Ref Scc.X86.Ref.K
 open Scc.Props.C14Generic (LabelSafe)
 open Scc.Props (C01_progInRangeB C01_stmtRangeB C01_clausesRangeB)
 
@@ -105,17 +131,157 @@ theorem C06_checks_facts {p : AxCut.Prog} (h : C06_x86Checks p = true) : ChecksF
     simp only [List.all_eq_true, decide_eq_true_eq] at h5
     exact ⟨d0, rfl, h5⟩
 
-/-! ## the run theorem for programs with data types, on the TEXT, side hypotheses discharged -/
+/-! ## closures: `create` and `invoke` on x86-64 -/
 
-/-- THEOREM A ∘ THEOREM B FOR PROGRAMS WITH DATA TYPES (no closures) ON THE TEXT OF THE ROUTINE: for a
-label-safe, linearly typed program that passes the decidable checks `C06_x86Checks` and that the x86-64
-code generator compiles, every terminating run of the AxCut positional machine is reproduced — same
-trace, same result — by the x86-64 SPEC machine on the printed routine, in EVERY sane machine
-configuration (`MachOK`; heap base positive and 8-aligned; the routine ends below 2^64) whose heap has
-`128 + 64·134·fuel` bytes. -/
-theorem C06_data_programs_text (p : AxCut.Prog) (args : List Word) (hooks : Bool) (body routine : List Code)
+open Scc.Backend.Sim2 (RelX Fits)
+open Scc.Heap (HState)
+open Scc.Heap.Refine (FrLe Room)
+open Scc.Props.C06Generic (Reachable WithinCapacity CodeFits EnoughHeap)
+
+section Clos
+
+variable {F : Frame} (H : FrameOK F) (h8 : F.c.heapBase % 8 = 0) {mon : MonCfg} (hmon : mon.mach = F.c)
+  {px : X86.Prog} {cs : List Code}
+
+include H h8 hmon in
+/-- THREE-WAY SIMULATION OF `create` on x86-64: the positional machine's step, two steps of the abstract
+machine (`store` of the environment, `loadLabel` of the method table), the machine's execution of
+`Memory::store` and `lea reg, [rel table]`.  The relation is re-established; the new closure is at the last
+position: its abstract word is the ADDRESS `a` of the mock methods (`MethodsAt`), its machine word the
+BYTE ADDRESS `w` of the x86-64 methods in the loaded routine (`XMethodsAt`), generated for the SAME
+environment context. -/
+theorem C06_create_x86 (L : Loaded px cs) (hnd : (labs cs).Nodup) (LA : LoadedA F.c px cs)
+    {P : Program} {hooks : Bool} {prog : AxCut.Prog} {Γ : Ctx}
+    {ρ : List Value} {x : Ident} {ty : Ty} {Γc : Ctx} {clauses : Clauses} {next : Stmt} {f1 f2 : FV}
+    {cfg : Config}
+    (R : RelX P hooks prog ⟨Γ, ρ, .create x ty (some Γc) clauses next f1 f2⟩ cfg)
+    (hk : Γc.length ≤ Γ.length)
+    (hkeys : Ctx.keys (Γ.drop (Γ.length - Γc.length)) = Γc.keys)
+    (hfresh : ∀ b ∈ Γ.take (Γ.length - Γc.length), b.var.id ≠ x.id)
+    (hcap : 2 * (Γ.length - Γc.length + 1) + 2 < Mock.T_TEMP)
+    (hnext : cfg.next < 2 ^ 64)
+    {hs : HState} {ι : Nat → Nat} {κ : Nat → Nat → Word} {st : State} (X : X3 F Γ cfg hs ι κ st)
+    {k k' : Nat} {items : List Code}
+    (hrun : (codeStatementR x86Backend hooks natRen prog.types (.create x ty (some Γc) clauses next f1 f2) Γ).run k =
+      .ok (items, k'))
+    (hat : XAt cs st.pc items)
+    (hroom : Room hs (64 * Γc.length + 64)) :
+    ∃ cfg' st' hs' ι' κ' n, stepsTo P 2 cfg cfg' ∧ stepN mon px n st = .inl st' ∧ FrLe hs hs' (64 * Γc.length) ∧
+      cfg'.out = cfg.out ∧ cfg'.next ≤ cfg.next + 1 ∧
+      RelX P hooks prog ⟨Γ.take (Γ.length - Γc.length) ++ [⟨x, .cns, ty⟩],
+        ρ.take (Γ.length - Γc.length) ++ [.clo Γc (ρ.drop (Γ.length - Γc.length)) clauses], next⟩ cfg' ∧
+      X3 F (Γ.take (Γ.length - Γc.length) ++ [⟨x, .cns, ty⟩]) cfg' hs' ι' κ' st' ∧
+      ∃ k1 k1' items', (codeStatementR x86Backend hooks natRen prog.types next
+          (Γ.take (Γ.length - Γc.length) ++ [⟨x, .cns, ty⟩])).run k1 = .ok (items', k1') ∧
+        XAt cs st'.pc items' ∧ LetProv F Γ (Γ.length - Γc.length) cfg cfg' κ κ' st st' ∧
+        ∃ a w, cfg'.temps.get (2 * (Γ.length - Γc.length) + 1) = some (BitVec.ofNat 64 a) ∧
+          tempVal F.sp st' (posTemp (2 * (Γ.length - Γc.length) + 1)) = some w ∧
+          MethodsAt P hooks prog.types a (Γ.drop (Γ.length - Γc.length)) clauses ∧
+          XMethodsAt F.c cs hooks prog.types w (Γ.drop (Γ.length - Γc.length)) clauses :=
+  create_x3 H h8 hmon L hnd LA R hk hkeys hfresh hcap hnext X hrun hat hroom
+
+include H h8 hmon in
+/-- THREE-WAY SIMULATION OF `invoke` on x86-64: the positional machine's step; the abstract machine jumps
+to the address `a` the closure holds (through the table of the mock methods, if the type has more than one
+method) and loads the environment; the x86-64 machine jumps to the BYTE ADDRESS `w` the closure holds
+(`jmp reg`; with more than one method: `add reg, 5·pos; jmp reg` into the table of 5-byte jumps — stride
+`jump_length` = 5 per method — and from there to the method) and runs `Memory::load` of the environment.
+`hword … hXM`: what the closure invariant `XC` says about the closure at the last position.  The relation
+is re-established at the boundary state `st'`; the machine itself is at `stR`, which is `st'` or `st'`
+moved over labels and comments (`Tol`; `jmp reg` lands on the first item of non-zero size). -/
+theorem C06_invoke_x86 (LA : LoadedA F.c px cs) (hnd : (labs cs).Nodup)
+    (hfitX : addrAt F.c.codeBase cs cs.length < 2 ^ 64)
+    (hreal : ∀ idx, idx < cs.length → ∃ i, idx ≤ i ∧ ∃ h : i < cs.length, codeSize cs[i] ≠ 0)
+    {P : Program} {hooks : Bool} {prog : AxCut.Prog} {Γa : Ctx} {b : Binding}
+    {ρa : List Value} {Γc : Ctx} {ρc : List Value} {clauses : Clauses} {x tag : Ident} {ty : Ty}
+    {args : Ctx} {cfg : Config} {c : Clause} {pos : Nat}
+    (R : RelX P hooks prog ⟨Γa ++ [b], ρa ++ [.clo Γc ρc clauses], .invoke x tag ty args⟩ cfg)
+    (hfits : Fits P)
+    (hb : b.var.id = x.id) (hfresh : ∀ b' ∈ Γa, b'.var.id ≠ x.id)
+    (hpos : Pos.tagPosition prog.types ty tag = .ok pos)
+    (hclause : nthClause clauses pos = some c)
+    (hlenc : ∀ d, lookupTypeDecl prog.types ty = some d → clauses.length = d.xtors.length)
+    (hargs : Γa.map (·.chi) = c.ctx.map (·.chi))
+    (hkinds : ρc.map Sim2.kindOf = Mock.kindsOf Γc)
+    (hcap : 2 * (c.ctx.length + Γc.length) + 2 < Mock.T_TEMP)
+    {hs : HState} {ι : Nat → Nat} {κ : Nat → Nat → Word} {st : State} (X : X3 F (Γa ++ [b]) cfg hs ι κ st)
+    {a : Nat} {envCtx' : Ctx} {w : Word} (hkeys : envCtx'.keys = Γc.keys)
+    (hword : cfg.temps.get (2 * Γa.length + 1) = some (BitVec.ofNat 64 a))
+    (hmeth : MethodsAt P hooks prog.types a envCtx' clauses)
+    (hw : tempVal F.sp st (posTemp (2 * Γa.length + 1)) = some w)
+    (hXM : XMethodsAt F.c cs hooks prog.types w envCtx' clauses)
+    {k k' : Nat} {items : List Code}
+    (hrun : (codeStatementR x86Backend hooks natRen prog.types (.invoke x tag ty args) (Γa ++ [b])).run k =
+      .ok (items, k'))
+    (hat : XAt cs st.pc items)
+    (hcapX : 2 * (c.ctx.length + Γc.length) ≤ 266)
+    (hi32 : fitsI32 (jumpLength pos) = true) :
+    ∃ kk cfg' st' stR hs' n, stepsTo P kk cfg cfg' ∧ stepN mon px n st = .inl stR ∧ Tol cs st' stR ∧
+      FrLe hs hs' 0 ∧ cfg'.out = cfg.out ∧ cfg'.next = cfg.next ∧
+      RelX P hooks prog ⟨c.ctx ++ envCtx', ρa ++ ρc, c.body⟩ cfg' ∧
+      X3 F (c.ctx ++ envCtx') cfg' hs' ι κ st' ∧
+      ∃ k1 k1' items', (codeStatementR x86Backend hooks natRen prog.types c.body (c.ctx ++ envCtx')).run k1 =
+          .ok (items', k1') ∧ XAt cs st'.pc items' ∧ LoadProv F Γa.length envCtx' cfg cfg' κ st st' :=
+  invoke_x3 H h8 hmon LA hnd hfitX hreal R hfits hb hfresh hpos hclause hlenc hargs hkinds hcap X hkeys hword
+    hmeth hw hXM hrun hat hcapX hi32
+
+end Clos
+
+/-! ## the run theorem for ALL programs -/
+
+/-- THE THREE-WAY STEP FOR ALL ELEVEN STATEMENT FORMS: every step of the positional machine from a typed
+state in the three-way relation `Ref.K.Rel3` (`RelX` ∧ `X3` ∧ the closure invariant `XC` ∧ the code at the
+program counter) is reproduced by the x86-64 machine, and the relation holds again (`Ref.K.StepSim3`: with
+output, bound on the object counter and on the heap frontier; after `invoke` the machine may be ahead of
+the boundary state by labels and comments, `Tol`). -/
+theorem C06_step_x86_all {F : Frame} (HF : FrameOK F) (h8 : F.c.heapBase % 8 = 0) {mon : MonCfg}
+    (hmon : mon.mach = F.c) {px : X86.Prog} {cs pre : List Code} (LA : LoadedA F.c px cs)
+    (hnd : (labs cs).Nodup) (hfitX : addrAt F.c.codeBase cs cs.length < 2 ^ 64) (hcs : cs = pre ++ cleanup)
+    (hclean : "cleanup" ∉ labs pre) {st0 : State} {h : Word} (E : EntryFacts F st0 h)
+    (hooks : Bool) (prog : AxCut.Prog) (c : Nat) (code : List MockOp) (nargs c' : Nat)
+    (hcomp : (compile mockSym hooks prog).run c = .ok ((code, nargs), c'))
+    (hsafe : LabelSafe prog = true) (htp : LinTypedProg prog) (hfit : CodeFits code)
+    (DX : Ref.K.XDefsAt cs hooks prog) (hprog : Ref.K.ProgOK prog)
+    (st : Pos.State) (cfg : Config) (hs : HState) (X : State)
+    (R : Ref.K.Rel3 F cs (Program.ofOps code) hooks prog st cfg hs X)
+    (T : Pos.StateTyped prog st) (hheap : EnoughHeap cfg) (hok : Ref.K.StmtOK st.stmt)
+    (hroom : Room hs (64 * 134)) :
+    Ref.K.StepSim3 F mon px cs (Program.ofOps code) hooks prog st cfg hs X :=
+  Ref.K.step3 HF h8 hmon LA hnd hfitX hcs hclean E hooks prog c code nargs c' hcomp hsafe htp hfit DX hprog st
+    cfg hs X R T hheap hok hroom
+
+
+/-- THEOREM A ∘ THEOREM B FOR ALL PROGRAMS (data types and closures; no `DataProg` restriction), on the
+ITEMS of the emitted routine, with the side hypotheses of the composition stated explicitly (they are
+discharged in `C06_programs_text`). -/
+theorem C06_programs (p : AxCut.Prog) (args : List Word) (hooks : Bool) (body routine : List Code)
+    (nargs : Nat) (d0 : Def) (ops : List MockOp) (c' : Nat)
+    (hsafe : LabelSafe p = true) (htp : LinTypedProg p) (hrange : ProgInRange p)
+    (hcompM : (compile mockSym hooks p).run 0 = .ok ((ops, nargs), c')) (hfit : CodeFits ops)
+    (hcompX : compileX86 p hooks 0 = .ok (body, nargs)) (hrout : intoRoutine body nargs = .ok routine)
+    (hnd : (labs routine).Nodup)
+    (hd : p.defs.head? = some d0) (hentry : ∀ b ∈ d0.ctx, b.chi = .ext ∧ b.ty = .i64)
+    (hcap : ∀ st, Reachable p ⟨d0.ctx, args.map .int, d0.body⟩ st → 2 * st.ctx.length ≤ 266)
+    (fuel : Nat) (out : List (Bool × Word)) (v : Word) (hfuel : fuel + 1 < 2 ^ 64)
+    (hrun : Pos.run p args fuel = ⟨out, .done v⟩)
+    (cfg : MonCfg) (MO : MachOK cfg.mach) (hheap : cfg.heap = false)
+    (hb8 : cfg.mach.heapBase % 8 = 0) (hb0 : 0 < cfg.mach.heapBase)
+    (hbytes : 128 + 64 * 134 * fuel ≤ cfg.mach.heapBytes)
+    (items : List (Code × Nat)) (hitems : (items.map (·.1)).map stripC = routine.map stripC)
+    (hfitX : addrAt cfg.mach.codeBase routine routine.length < 2 ^ 64) :
+    ∃ fuel', (runItems items args fuel' cfg).out = out ∧ (runItems items args fuel' cfg).res = .done v :=
+  programs_items p args hooks body routine nargs d0 ops c' hsafe htp
+    ⟨hrange.1, fun d hd => hrange.2 d hd⟩ hcompM hfit hcompX hrout hnd hd hentry hcap fuel out v
+    hfuel hrun cfg MO hheap hb8 hb0 hbytes items hitems hfitX
+
+/-- THEOREM A ∘ THEOREM B FOR ALL PROGRAMS ON THE TEXT OF THE ROUTINE: for a label-safe, linearly typed
+program that passes the decidable checks `C06_x86Checks` and that the x86-64 code generator compiles,
+every terminating run of the AxCut positional machine is reproduced — same trace, same result — by the
+x86-64 SPEC machine on the printed routine, in EVERY sane machine configuration (`MachOK`; heap base
+positive and 8-aligned; the routine ends below 2^64) whose heap has `128 + 64·134·fuel` bytes. -/
+theorem C06_programs_text (p : AxCut.Prog) (args : List Word) (hooks : Bool) (body routine : List Code)
     (nargs : Nat)
-    (hsafe : LabelSafe p = true) (htp : LinTypedProg p) (hdata : DataProg p) (hchk : C06_x86Checks p = true)
+    (hsafe : LabelSafe p = true) (htp : LinTypedProg p) (hchk : C06_x86Checks p = true)
     (hcompX : compileX86 p hooks 0 = .ok (body, nargs)) (hrout : intoRoutine body nargs = .ok routine)
     (fuel : Nat) (out : List (Bool × Word)) (v : Word) (hrun : Pos.run p args fuel = ⟨out, .done v⟩)
     (cfg : MonCfg) (MO : MachOK cfg.mach) (hheap : cfg.heap = false)
@@ -150,11 +316,58 @@ theorem C06_data_programs_text (p : AxCut.Prog) (args : List Word) (hooks : Bool
       rw [hn, hn']
   subst hnargs
   obtain ⟨items, hparse, hitems⟩ := C14_routine_loads hrange hnames hcompX hrout
-  obtain ⟨fuel', h1, h2⟩ := data_programs_items p args hooks body routine nargsM d0 ops c' hsafe htp
-    ⟨hrange.1, fun d hd' => ⟨hdata d hd', hrange.2 d hd'⟩⟩ hcompM (codeFits_of_size htp hsize hcompM) hcompX hrout
+  obtain ⟨fuel', h1, h2⟩ := C06_programs p args hooks body routine nargsM d0 ops c' hsafe htp
+    hrange hcompM (codeFits_of_size htp hsize hcompM) hcompX hrout
     hnd hd hentry (cap266_of_check hcap hmem args) fuel out v (fuel_lt_of_heap MO hbytes) hrun cfg MO hheap hb8
     hb0 hbytes items hitems hfitX
   exact ⟨fuel', by rw [run_eq_runItems hparse]; exact h1, by rw [run_eq_runItems hparse]; exact h2⟩
+
+/-- the same for programs with data types (kept: the first rung delivered; `DataProg` is no longer needed) -/
+theorem C06_data_programs_text (p : AxCut.Prog) (args : List Word) (hooks : Bool) (body routine : List Code)
+    (nargs : Nat)
+    (hsafe : LabelSafe p = true) (htp : LinTypedProg p) (hdata : DataProg p) (hchk : C06_x86Checks p = true)
+    (hcompX : compileX86 p hooks 0 = .ok (body, nargs)) (hrout : intoRoutine body nargs = .ok routine)
+    (fuel : Nat) (out : List (Bool × Word)) (v : Word) (hrun : Pos.run p args fuel = ⟨out, .done v⟩)
+    (cfg : MonCfg) (MO : MachOK cfg.mach) (hheap : cfg.heap = false)
+    (hb8 : cfg.mach.heapBase % 8 = 0) (hb0 : 0 < cfg.mach.heapBase)
+    (hbytes : 128 + 64 * 134 * fuel ≤ cfg.mach.heapBytes)
+    (hfitX : addrAt cfg.mach.codeBase routine routine.length < 2 ^ 64) :
+    ∃ fuel', (run (printProg routine) args fuel' cfg).out = out ∧
+      (run (printProg routine) args fuel' cfg).res = .done v :=
+  C06_programs_text p args hooks body routine nargs hsafe htp hchk hcompX hrout fuel out v hrun cfg MO hheap hb8
+    hb0 hbytes hfitX
+
+/-! ## comparison with `C06_statement` (Props/C06X86.lean)
+
+`C06_statement` reads: `LinTypedProg p`, compile ok ⇒ for every terminating run
+`∃ fuel' heapBytes, ∀ cfg, cfg.mach.heapBytes = heapBytes → cfg.heap = false →` same trace and result.
+`C06_statement_checked` below is what is PROVED; the clauses that differ:
+  (1) hypotheses `LabelSafe p = true` and `C06_x86Checks p = true` (names printable for the loader,
+      literals/tags/substitutions in range, at most 133 variables per context, code size below 2^64,
+      integer parameters of the first definition) — `C06_statement` has none of them;
+  (2) `C06_statement` quantifies over EVERY configuration with the chosen `heapBytes`; proved for the sane
+      ones: `MachOK cfg.mach` (regions disjoint and below 2^64), `heapBase % 8 = 0`, `0 < heapBase`, the
+      loaded routine ends below 2^64 (`addrAt codeBase routine routine.length < 2^64`);
+  (3) heap: every `heapBytes ≥ 128 + 64·134·fuel` (a lower bound, not one value) — stronger;
+  (4) `fuel'` is chosen AFTER the configuration (`∀ cfg … ∃ fuel'`), in `C06_statement` before it. -/
+
+/-- C06 on x86-64 as PROVED (`C06_statement_checked_holds`) -/
+def C06_statement_checked : Prop :=
+  ∀ (p : AxCut.Prog) (args : List (BitVec 64)) (hooks : Bool) (body routine : List Code) (nargs : Nat),
+    LabelSafe p = true → LinTypedProg p → C06_x86Checks p = true →
+    compileX86 p hooks 0 = .ok (body, nargs) → intoRoutine body nargs = .ok routine →
+    ∀ fuel v, Pos.run p args fuel = ⟨(Pos.run p args fuel).out, .done v⟩ →
+      ∃ heapBytes, ∀ cfg : MonCfg, MachOK cfg.mach → cfg.mach.heapBase % 8 = 0 → 0 < cfg.mach.heapBase →
+        addrAt cfg.mach.codeBase routine routine.length < 2 ^ 64 →
+        heapBytes ≤ cfg.mach.heapBytes → cfg.heap = false →
+        ∃ fuel', (run (printProg routine) args fuel' cfg).out = (Pos.run p args fuel).out ∧
+          (run (printProg routine) args fuel' cfg).res = .done v
+
+theorem C06_statement_checked_holds : C06_statement_checked := by
+  intro p args hooks body routine nargs hsafe htp hchk hcompX hrout fuel v hrun
+  refine ⟨128 + 64 * 134 * fuel, fun cfg MO hb8 hb0 hfitX hbytes hheap => ?_⟩
+  exact C06_programs_text p args hooks body routine nargs hsafe htp hchk hcompX hrout fuel _ v hrun cfg MO hheap
+    hb8 hb0 hbytes hfitX
 
 /-! ### non-vacuity -/
 
@@ -162,16 +375,79 @@ set_option maxRecDepth 100000 in
 theorem C06_boxProg_checks : C06_x86Checks C06_boxProg = true := by decide +kernel
 
 /-- the box program of Props/C06X86Heap.lean started with x = 21: every hypothesis of
-`C06_data_programs_text` holds, so the x86-64 machine on the TEXT of the emitted routine prints 42 and
+`C06_programs_text` holds, so the x86-64 machine on the TEXT of the emitted routine prints 42 and
 returns 42 -/
 example : ∃ fuel',
     (run (printProg C06_boxRoutine) [21] fuel' {}).out = [(true, 42)] ∧
     (run (printProg C06_boxRoutine) [21] fuel' {}).res = .done 42 := by
   have hrun : Pos.run C06_boxProg [21] 20 = ⟨[(true, 42)], .done 42⟩ := by decide
-  exact C06_data_programs_text C06_boxProg [21] true C06_boxBody C06_boxRoutine 1
-    (by decide) (linTypedCheck_sound C06_boxProg rfl) C06_boxProg_data C06_boxProg_checks rfl rfl
+  exact C06_programs_text C06_boxProg [21] true C06_boxBody C06_boxRoutine 1
+    (by decide) (linTypedCheck_sound C06_boxProg rfl) C06_boxProg_checks rfl rfl
     20 _ _ hrun {} machOK_default rfl (by decide) (by decide) (by decide) C06_boxRoutine_fits
+
+/-! ### non-vacuity: closures (single method: `jmp reg`; two methods: jump table; a closure captured by a
+closure, moved by `subst`, erased) -/
+
+def C06_tFun : Ty := .decl ⟨"Fun", 0⟩
+def C06_tTwo : Ty := .decl ⟨"Two", 0⟩
+def C06_funDecl : TypeDecl := { name := ⟨"Fun", 0⟩, xtors := [⟨⟨"Ap", 0⟩, [⟨⟨"a", 202⟩, .ext, .i64⟩]⟩] }
+def C06_twoDecl : TypeDecl :=
+  { name := ⟨"Two", 0⟩, xtors := [⟨⟨"Fst", 0⟩, [⟨⟨"a", 203⟩, .ext, .i64⟩]⟩, ⟨⟨"Snd", 0⟩, [⟨⟨"a", 204⟩, .ext, .i64⟩]⟩] }
+
+/-- main(x) { create f : Fun = (x){ Ap(a) => s <- a + x; println s; exit s }; lit n <- 5;
+      subst (n := n)(f := f);
+      create g : Two = (f){ Fst(a) => invoke f Ap; Snd(a) => subst (a := a); exit a };
+      invoke g Fst } -/
+def C06_cloMain : Def :=
+  { name := ⟨"main", 0⟩, ctx := [⟨⟨"x", 1⟩, .ext, .i64⟩],
+    body := .create ⟨"f", 2⟩ C06_tFun (some [⟨⟨"x", 1⟩, .ext, .i64⟩])
+      (.cons ⟨"Ap", 0⟩ [⟨⟨"a", 3⟩, .ext, .i64⟩]
+        (.op ⟨"s", 4⟩ ⟨"a", 3⟩ .sum ⟨"x", 1⟩ (.print true ⟨"s", 4⟩ (.exit ⟨"s", 4⟩) none) none) .nil)
+      (.lit ⟨"n", 5⟩ 5
+        (.subst [(⟨⟨"n", 6⟩, .ext, .i64⟩, ⟨"n", 5⟩), (⟨⟨"f", 7⟩, .cns, C06_tFun⟩, ⟨"f", 2⟩)]
+          (.create ⟨"g", 8⟩ C06_tTwo (some [⟨⟨"f", 7⟩, .cns, C06_tFun⟩])
+            (.cons ⟨"Fst", 0⟩ [⟨⟨"a", 9⟩, .ext, .i64⟩]
+              (.invoke ⟨"f", 7⟩ ⟨"Ap", 0⟩ C06_tFun [⟨⟨"a", 9⟩, .ext, .i64⟩])
+              (.cons ⟨"Snd", 0⟩ [⟨⟨"a", 10⟩, .ext, .i64⟩]
+                (.subst [(⟨⟨"a", 11⟩, .ext, .i64⟩, ⟨"a", 10⟩)] (.exit ⟨"a", 11⟩)) .nil))
+            (.invoke ⟨"g", 8⟩ ⟨"Fst", 0⟩ C06_tTwo [⟨⟨"n", 6⟩, .ext, .i64⟩]) none none)) none) none none }
+
+def C06_cloProg : AxCut.Prog := { defs := [C06_cloMain], types := [C06_funDecl, C06_twoDecl], maxId := 204 }
+
+def C06_cloBody : List Code :=
+  match compileX86 C06_cloProg true 0 with
+  | .ok (body, _) => body
+  | .error _ => []
+
+def C06_cloRoutine : List Code :=
+  match intoRoutine C06_cloBody 1 with
+  | .ok r => r
+  | .error _ => []
+
+set_option maxRecDepth 100000 in
+theorem C06_cloProg_checks : C06_x86Checks C06_cloProg = true := by decide +kernel
+
+set_option maxRecDepth 100000 in
+theorem C06_cloRoutine_fits :
+    addrAt ({} : MachCfg).codeBase C06_cloRoutine C06_cloRoutine.length < 2 ^ 64 := by decide
+
+/-- the closure program started with x = 37: every hypothesis of `C06_programs_text` holds, so the x86-64
+machine on the TEXT of the emitted routine prints 42 and returns 42 (`g` is invoked through the jump table
+of `Two`, `f` — loaded from the environment of `g` — through `jmp reg`) -/
+example : ∃ fuel',
+    (run (printProg C06_cloRoutine) [37] fuel' {}).out = [(true, 42)] ∧
+    (run (printProg C06_cloRoutine) [37] fuel' {}).res = .done 42 := by
+  have hrun : Pos.run C06_cloProg [37] 20 = ⟨[(true, 42)], .done 42⟩ := by decide
+  exact C06_programs_text C06_cloProg [37] true C06_cloBody C06_cloRoutine 1
+    (by decide) (linTypedCheck_sound C06_cloProg rfl) C06_cloProg_checks rfl rfl
+    20 _ _ hrun {} machOK_default rfl (by decide) (by decide) (by decide) C06_cloRoutine_fits
 
 end Scc.X86
 
+#print axioms Scc.X86.C06_create_x86
+#print axioms Scc.X86.C06_invoke_x86
+#print axioms Scc.X86.C06_step_x86_all
+#print axioms Scc.X86.C06_programs
+#print axioms Scc.X86.C06_programs_text
 #print axioms Scc.X86.C06_data_programs_text
+#print axioms Scc.X86.C06_statement_checked_holds
